@@ -73,6 +73,44 @@ func c09R1(c *Ctx) {
 				flipped = true
 			}
 		}
+		if !flipped {
+			// the flip lives in a helper shared by the hand-over functions (`r.resumeIfWaitingIn(stage)`): a method of the
+			// same package, called here under the step lock, that stores `running` under a test of the state field
+			eachInstr(s.fn, func(r instrRef) {
+				call, ok := r.I.(*ssa.Call)
+				if !ok {
+					return
+				}
+				h := call.Common().StaticCallee()
+				if h == nil || h.Pkg != s.fn.Pkg || len(h.Blocks) == 0 {
+					return
+				}
+				// on the path of this hand-over (not another case of the dispatch), and not itself a hand-over function
+				if !dominates(call, s.in) && !dominates(s.in, call) {
+					return
+				}
+				for _, s2 := range sites {
+					if s2.fn == h {
+						return
+					}
+				}
+				must, _ := la.Held(call)
+				held := false
+				for l := range must {
+					if isStepLock(l) {
+						held = true
+					}
+				}
+				if !held {
+					return
+				}
+				for _, vs := range c.fieldStoresIn(h, sf) {
+					if isConstStr(vs.val, "running") && vs.at.Parent() == h && guardedBy(vs.at, true, func(cond ssa.Value) bool { return condReadsFieldDeep(cond, sf) }) != nil {
+						flipped = true
+					}
+				}
+			})
+		}
 		c.verdict(flipped, rule, key, c.instrPos(s.in), "the hand-over flips waiting_for_input -> running in the same critical section",
 			"the input is handed over but the state stays `waiting_for_input` until the consumer goroutine wakes up and sets `running` itself: if that goroutine is delayed, the deadlock detector (3 retries x 10 ms) sees no running step and aborts a run that could still complete")
 	}
